@@ -196,6 +196,10 @@ func (f changeFinder) walkStruct(from, to *value) bool {
 			pos := f.Interface().(token.Pos)
 			if pos.IsValid() {
 				starts[i] = pos
+			} else {
+				// An absent token takes no space: its range begins
+				// where the last valid node ended.
+				starts[i] = lastEnd
 			}
 		default:
 			// Otherwise the start position is the end position of the last
